@@ -259,7 +259,7 @@ def measure_cffi(decls, texts, queries, workdir, modes=("inline", "inline-type",
                        "queries": {d["id"]: queries[d["id"]] for d in part}, "modes": list(modes),
                        "tag": "%d_%d" % (os.getpid(), j)}, f)
         procs.append((subprocess.Popen([core.PY, "-m", "harness.types_enum", fin, wd], env=core.sub_env(),
-                                       cwd=core.VERIF, stderr=subprocess.PIPE, text=True), wd, part))
+                                       cwd=core.VERIF, stdout=subprocess.DEVNULL, stderr=subprocess.PIPE, text=True), wd, part))
     res = {}
     for pr, wd, part in procs:
         _o, err = pr.communicate()
